@@ -210,7 +210,11 @@ def cval(v):
 def ctable(t):
     if t is None:
         return "None"
-    return "(Some [" + "; ".join("(%s, %s)" % (cb(unhex(k)), cval(v)) for k, v in t) + "])"
+    # canonical form of a Go map: sorted by key, later duplicates win
+    d = {}
+    for k, v in t:
+        d[unhex(k)] = v
+    return "(Some [" + "; ".join("(%s, %s)" % (cb(k), cval(d[k])) for k in sorted(d)) + "])"
 
 
 def route_to_coq(c):
